@@ -39,6 +39,10 @@ def _value(rng, klass):
         return rng.randint(-9, 9)
     if klass == "mixed":
         return rng.choice([-1, 1]) * 10 ** rng.uniform(-6, 9)
+    if klass == "huge":
+        # finite values so far apart that squares of their differences leave the float range (only totality, n, min and
+        # max are judged there)
+        return rng.choice([1.0, -2.5, 1e160, -3e155, 2e154, 1e200])
     return rng.uniform(-100, 100)
 
 
@@ -47,7 +51,7 @@ def gen_case(rng, tier, i):
         cls = rng.choice(["WeightedTally", "EventBasedWeightedTally", "EventBasedWeightedTally+sub", "EventBasedWeightedTally+sub", "EventBasedWeightedTally+resub"])
         entry = rng.choice(["register", "notify"]) if cls.startswith("EventBased") else "register"
         n = rng.choice([0, 1, 2, 3, 5, 10, 10, 40, 200])
-        klass = rng.choice(["equal", "int", "mixed", "uniform"])
+        klass = rng.choice(["equal", "int", "mixed", "uniform", "uniform", "huge"])
         wmode = rng.choice(["allzero", "zeroprefix", "mixed", "mixed", "positive", "ints"])
         ops = []
         for k in range(n):
@@ -67,7 +71,7 @@ def gen_case(rng, tier, i):
             ops.append(["obs", w, _value(rng, klass)])
         if rng.random() < 0.3:
             ops.append(["bad", rng.choice(["negw", "nanw", "nanv"])])
-        case = {"fam": "W", "cls": cls, "entry": entry, "ops": ops}
+        case = {"fam": "W", "cls": cls, "entry": entry, "ops": ops, "klass": klass}
         obs = [o for o in ops if o[0] == "obs"]
         if len(obs) >= 4 and rng.random() < 0.2:
             # 'sparse' mode: one getter, asked only at a few moments, equally many observations before and after a
@@ -271,7 +275,11 @@ def run_case(case, ctx):
         got = _getters(ctx, t, where, only=sparse)
         if ex.n > 0 and ex.W == 0:
             ctx.count("zero_total_weight_states")
-        if not _judge(ctx, got, ex.expected(), where):
+        if case.get("klass") == "huge":
+            want = {k: ((ex.n if k == "n" else ex.min if k == "min" else ex.max), 0) if k in ("n", "min", "max") else (math.nan, "any") for k in got}
+        else:
+            want = ex.expected()
+        if not _judge(ctx, got, want, where):
             return
     ctx.nontrivial = zeros >= 1 and pos >= 2 and len(vals) >= 2
 
